@@ -56,6 +56,10 @@ def remove_unused_self_cls(source: str) -> str:
                 # Add classmethod at the top
                 if any(_decorators_of_type(funcdef, "classmethod")):
                     continue
+                if first_arg_name != "cls" and any(
+                    core.walk(funcdef, (ast.Name(id="cls"), ast.arg(arg="cls")))
+                ):
+                    continue  # The first argument cannot be renamed to cls, that name is in use
                 decorator = "classmethod"
             else:
                 # Add staticmethod at the top, remove classmethod
